@@ -92,4 +92,13 @@ mod proofs {
         v.update(fin());
         assert!(bits(v.last()) == Some((a * b).to_bits()));
     }
+    // thorough tier: quotient bits (non-zero divisor)
+    #[kani::proof]
+    fn divide_bits() {
+        let (a, b) = (fin(), fin());
+        kani::assume(b != 0.0);
+        let mut v = Divide::new(Oracle::new([Some(a), None]), Oracle::new([Some(b), None]));
+        v.update(fin());
+        assert!(bits(v.last()) == Some((a / b).to_bits()));
+    }
 }
